@@ -143,6 +143,8 @@ def make_worker(case, ctx, name, marker, cls=None, extra_kwargs=None):
         target, args = vtargets.spin_finally, [marker]
     elif sc == 'persist':
         target, args = vtargets.item_or_raise, None
+    elif sc == 'state_unrebuildable':
+        target, args = None, None
     elif sc.startswith('raise:'):
         target, args = vtargets.raise_exc, [sc.split(':')[1], ['a', 1]]
     elif sc.startswith('slowload:'):
@@ -151,6 +153,11 @@ def make_worker(case, ctx, name, marker, cls=None, extra_kwargs=None):
         target, args = vtargets.make_bytes, [int(sc.split(':')[1])]
     else:
         raise ValueError(sc)
+    if sc == 'state_unrebuildable':
+        import vworkers
+        cls = vworkers.CLASSES[kind]
+        target, args = vworkers.state_target, (None if kind.startswith('p_') else [['needsargs'], 'return'])
+        kw['init_state'] = 0
     if case.get('pipe') == 'supplied' and kind.startswith('p_'):
         kw['results_pipe'] = Pipe()
     if extra_kwargs:
@@ -265,6 +272,10 @@ def execute(case, ctx, cls=None, extra_kwargs=None, after_create=None):
         if after_create:
             after_create(w, obs)
         items = case.get('items', [])
+        if case['scenario'] == 'state_unrebuildable' and kind.startswith('p_'):
+            bounded(w.enqueue, 10, ['needsargs'], 'return')
+            bounded(w.close, 10)
+            items = []
         if kind.startswith('p_'):
             acc = 0
             for x in items:
